@@ -750,67 +750,7 @@ func runC12(c *core.Ctx) core.Meta {
 
 	_ = sort.Strings
 	// ---------------- R12.8 waiters are released only after the command's results are in place ----------------
-	st8 := c.Rule("R12.8", "CommandQueue.Dequeue wakes the application threads that wait for the queue to drain; in every driver function that retires a command, no write into the command's host-side destination (encoding/binary.Read or copy into a value whose provenance ends in .Dst) is reachable after the Dequeue call: the waiter would read its buffer while the simulation goroutine is still filling it", 5)
-	{
-		deq := c.SSAFunc(driverPkg, "CommandQueue.Dequeue")
-		isHostWrite := func(in ssa.Instruction) bool {
-			cc := core.CallOf(in)
-			if cc == nil {
-				return false
-			}
-			if b, ok := cc.Value.(*ssa.Builtin); ok && b.Name() == "copy" && len(cc.Args) == 2 {
-				return strings.Contains(prov.Of(cc.Args[0]), ".Dst")
-			}
-			if cal := cc.StaticCallee(); cal != nil && cal.Pkg != nil && cal.Pkg.Pkg.Path() == "encoding/binary" && cal.Name() == "Read" && len(cc.Args) == 3 {
-				return strings.Contains(prov.Of(cc.Args[2]), ".Dst")
-			}
-			return false
-		}
-		nWrites := 0
-		seenWrite := map[ssa.Instruction]bool{}
-		for _, fn := range pd.Funcs {
-			has := false
-			for _, b := range fn.Blocks {
-				for _, in := range b.Instrs {
-					if cc := core.CallOf(in); cc != nil && deq != nil && cc.StaticCallee() == deq {
-						has = true
-					}
-				}
-			}
-			if !has {
-				continue
-			}
-			c.MarkAnalysed(fn)
-			g := core.BuildGraph(fn, 3, func(cal *ssa.Function) bool { return cal.Pkg == fn.Pkg && cal != deq })
-			for _, n := range g.NodesWhere(func(n *core.Node) bool {
-				cc := core.CallOf(n.Instr)
-				return cc != nil && cc.StaticCallee() == deq && n.Frame.Parent == nil
-			}) {
-				st8.Instances++
-				reach, okW := g.Reach(core.After(n, nil), core.WalkOpts{ForwardOnly: true})
-				var late *core.Node
-				for m := range reach {
-					if isHostWrite(m.Instr) && (late == nil || m.ID < late.ID) {
-						late = m
-					}
-				}
-				st8.Ob(okW && late == nil)
-				if late != nil {
-					c.ReportAt("R12.8", fn, late.Instr.Pos(), "host-write-after-dequeue:"+core.FuncName(late.Fn()), "the command's host destination is written after CommandQueue.Dequeue released the threads waiting for the queue: MemCopyD2H / DrainCommandQueue can return before the data is in the caller's buffer")
-				}
-			}
-			for _, n := range g.Nodes {
-				if isHostWrite(n.Instr) && !seenWrite[n.Instr] {
-					seenWrite[n.Instr] = true
-					nWrites++
-				}
-			}
-		}
-		st8.Sample("%d host-destination writes in functions that retire commands", nWrites)
-		if nWrites < 2 {
-			c.Report(core.Finding{Rule: "R12.8", Kind: "floor", Pkg: driverPkg, Func: "-", Detail: "host-writes", Msg: fmt.Sprintf("%d writes into a command's host destination recognised, 3 confirmed by hand: the rule lost its subject", nWrites)})
-		}
-	}
+	checkHostWritesAfterRelease(c, pd, prov, "R12.8")
 
 	// ---------------- R12.9 nothing is traced for a command after its waiters were released ----------------
 	st9 := c.Rule("R12.9", "in the driver's command dispatch (Driver.processOneCommand with its callees; a call through the Middleware interface counts as a release when an implementation of the method in the package reaches CommandQueue.Dequeue) no tracing.StartTask is reachable after a point that can release the threads waiting for the queue: the released application thread may end the simulation and close the tracers while the simulation goroutine is still starting a task for the finished command", 2)
@@ -932,6 +872,66 @@ func runC12(c *core.Ctx) core.Meta {
 				}
 			}
 		}
+	}
+
+	// ---------------- R12.15 host data is touched when the command runs, not when it is enqueued ----------------
+	st15 := c.Rule("R12.15", "a copy command reads its host source and writes its host destination when it is processed at the head of its queue (simulation side), not when it is enqueued: no function that an exported Enqueue* method of the driver reaches by static calls inside the package encodes or decodes host data (encoding/binary.Write / Read). A source serialised at enqueue time misses what earlier commands of the same queue write into that host buffer (EnqueueMemCopyD2D stages its tail bytes through one: D2H into tmp, then H2D from tmp)", 3)
+	{
+		reach := map[*ssa.Function]*ssa.Function{} // function -> the API entry that reaches it
+		var add func(fn, root *ssa.Function)
+		add = func(fn, root *ssa.Function) {
+			if fn == nil || fn.Pkg != pd.Pkg {
+				return
+			}
+			if _, seen := reach[fn]; seen {
+				return
+			}
+			reach[fn] = root
+			for _, b := range fn.Blocks {
+				for _, in := range b.Instrs {
+					if cc := core.CallOf(in); cc != nil {
+						add(cc.StaticCallee(), root)
+					}
+				}
+			}
+		}
+		var roots []*ssa.Function
+		for _, fn := range pd.Funcs {
+			if fn.Signature.Recv() != nil && namedTypeName(fn.Signature.Recv().Type()) == "driver.Driver" && strings.HasPrefix(fn.Name(), "Enqueue") && fn.Object() != nil && fn.Object().Exported() {
+				roots = append(roots, fn)
+			}
+		}
+		sort.Slice(roots, func(i, j int) bool { return roots[i].Name() < roots[j].Name() })
+		for _, r := range roots {
+			add(r, r)
+		}
+		for _, r := range roots {
+			st15.Instances++
+			c.MarkAnalysed(r)
+			var bad ssa.Instruction
+			var where *ssa.Function
+			for fn, root := range reach {
+				if root != r {
+					continue
+				}
+				for _, b := range fn.Blocks {
+					for _, in := range b.Instrs {
+						if cc := core.CallOf(in); cc != nil {
+							if cal := cc.StaticCallee(); cal != nil && cal.Pkg != nil && cal.Pkg.Pkg.Path() == "encoding/binary" && (cal.Name() == "Write" || cal.Name() == "Read") {
+								if bad == nil || in.Pos() < bad.Pos() {
+									bad, where = in, fn
+								}
+							}
+						}
+					}
+				}
+			}
+			st15.Ob(bad == nil)
+			if bad != nil {
+				c.ReportAt("R12.15", where, bad.Pos(), "host-data-at-enqueue:"+r.Name(), "Driver."+r.Name()+" reaches "+core.FuncName(where)+", which encodes / decodes host data with encoding/binary on the enqueuing thread: the command is built from the host buffer as it is at enqueue time, so it does not see what earlier commands of the same queue write into that buffer (MemCopyD2D of a byte count that is not a multiple of four copies zeros for its tail)")
+			}
+		}
+		st15.Sample("%d exported Enqueue* methods, %d functions reachable from them", len(roots), len(reach))
 	}
 
 	// ---------------- R12.11 what a launch reads was written earlier on its own queue ----------------
@@ -1079,4 +1079,98 @@ func queueEmptyCut() EdgeCut {
 		}
 		return 0
 	})
+}
+
+// checkHostWritesAfterRelease (R12.8, shared with C05 as R05.8): no write into a command's
+// host destination after the command was dequeued.
+func checkHostWritesAfterRelease(c *core.Ctx, pd *PkgInfo, prov *core.Prov, rule string) {
+	st8 := c.Rule(rule, "CommandQueue.Dequeue wakes the application threads that wait for the queue to drain; in every driver function that retires a command (calls Dequeue itself or through helpers of the package, which are expanded), no write into the command's host-side destination (encoding/binary.Read or copy into a value whose provenance ends in .Dst) is reachable after the Dequeue call: the waiter would read its buffer while the simulation goroutine is still filling it, and what the program reads back depends on how the two threads are scheduled", 5)
+	deq := c.SSAFunc(driverPkg, "CommandQueue.Dequeue")
+	deqReach := map[*ssa.Function]bool{}
+	for changed := true; changed; {
+		changed = false
+		for _, fn := range pd.Funcs {
+			if deqReach[fn] {
+				continue
+			}
+			for _, b := range fn.Blocks {
+				for _, in := range b.Instrs {
+					if cc := core.CallOf(in); cc != nil {
+						if cal := cc.StaticCallee(); cal != nil && (cal == deq || deqReach[cal]) && !deqReach[fn] {
+							deqReach[fn] = true
+							changed = true
+						}
+					}
+				}
+			}
+		}
+	}
+	isHostWrite := func(n *core.Node) bool {
+		cc := core.CallOf(n.Instr)
+		if cc == nil {
+			return false
+		}
+		if b, ok := cc.Value.(*ssa.Builtin); ok && b.Name() == "copy" && len(cc.Args) == 2 {
+			return strings.Contains(provThroughFrames(prov, n, cc.Args[0]), ".Dst")
+		}
+		if cal := cc.StaticCallee(); cal != nil && cal.Pkg != nil && cal.Pkg.Pkg.Path() == "encoding/binary" && cal.Name() == "Read" && len(cc.Args) == 3 {
+			pv := provThroughFrames(prov, n, cc.Args[2])
+			if strings.Contains(pv, ".Dst") {
+				return true
+			}
+			// `cmd.Dst` of a command handed to a helper: the field is loaded from the helper's parameter
+			if ld, ok := cc.Args[2].(*ssa.UnOp); ok {
+				if f := core.LoadedField(ld); f != nil && f.Name() == "Dst" {
+					return true
+				}
+			}
+		}
+		return false
+	}
+	nWrites := 0
+	seenWrite := map[ssa.Instruction]bool{}
+	for _, fn := range pd.Funcs {
+		has := false
+		for _, b := range fn.Blocks {
+			for _, in := range b.Instrs {
+				if cc := core.CallOf(in); cc != nil && deq != nil {
+					if cal := cc.StaticCallee(); cal != nil && (cal == deq || deqReach[cal]) {
+						has = true
+					}
+				}
+			}
+		}
+		if !has {
+			continue
+		}
+		c.MarkAnalysed(fn)
+		g := core.BuildGraph(fn, 3, func(cal *ssa.Function) bool { return cal.Pkg == fn.Pkg && cal != deq })
+		for _, n := range g.NodesWhere(func(n *core.Node) bool {
+			cc := core.CallOf(n.Instr)
+			return cc != nil && cc.StaticCallee() == deq
+		}) {
+			st8.Instances++
+			reach, okW := g.Reach(core.After(n, nil), core.WalkOpts{ForwardOnly: true})
+			var late *core.Node
+			for m := range reach {
+				if isHostWrite(m) && (late == nil || m.ID < late.ID) {
+					late = m
+				}
+			}
+			st8.Ob(okW && late == nil)
+			if late != nil {
+				c.ReportAt(rule, fn, late.Instr.Pos(), "host-write-after-dequeue:"+core.FuncName(late.Fn()), "the command's host destination is written after CommandQueue.Dequeue released the threads waiting for the queue: MemCopyD2H / DrainCommandQueue can return before the data is in the caller's buffer")
+			}
+		}
+		for _, n := range g.Nodes {
+			if isHostWrite(n) && !seenWrite[n.Instr] {
+				seenWrite[n.Instr] = true
+				nWrites++
+			}
+		}
+	}
+	st8.Sample("%d host-destination writes in functions that retire commands", nWrites)
+	if nWrites < 2 {
+		c.Report(core.Finding{Rule: rule, Kind: "floor", Pkg: driverPkg, Func: "-", Detail: "host-writes", Msg: fmt.Sprintf("%d writes into a command's host destination recognised, 3 confirmed by hand: the rule lost its subject", nWrites)})
+	}
 }
